@@ -127,32 +127,35 @@ class BlockContents(Contract):
 class IntervalSizeSet(Contract):
     """ByteInterval.size = v: as the component documentation (doc/general/ByteInterval.md) requires, shrinking
     size below the stored byte count truncates the stored bytes, so that stored bytes never exceed size."""
-    target = "util.py::_IndexedAttribute.Descriptor.__set__"
-    variant = "ByteInterval.size/bytes"
-    props = PROPS
+    target = "byteinterval.py::ByteInterval.size.setter"
+    props = PROPS + ("C05", "C06", "C12")
+    params = {"self": "ref:ByteInterval", "value": "int"}
+    modifies = {"_size": lambda c0, a, r: r == a.self.t, "_interval_events": None,
+                "contents": lambda c0, a, r: r == a.self.t}
 
-    def __init__(self):
-        from contracts.descriptors import _descriptor_param
-        self.params = {"self": _descriptor_param("ByteInterval", "size"), "instance": "ref:ByteInterval", "value": "int"}
-        self.modifies = {"_size": lambda c0, a, r: r == a.instance.t, "_interval_events": None,
-                         "contents": lambda c0, a, r: r == a.instance.t}
-        super().__init__()
-
-    def selects(self, self_cls, args, kwargs=None):
-        return False        # never used at call sites (the index-maintenance variant is)
+    def region_invariant(self, c):
+        from specs import forest
+        return forest.inv_region(c)
 
     def pre(self, c, a):
-        bi = a.instance.t
-        sec = c.get("_section", bi)
-        return {"is_interval": c.isinst(bi, "ByteInterval"), "value_nonneg": a.value.t >= 0,
-                "detached_or_indexed": is_VNone(sec),        # index maintenance is C05/C06's variant of this contract
-                "typed": interval_typed(c, bi), "len_nonneg": contents(c, bi)[1] >= 0,
-                "inv_bytes": contents(c, bi)[1] <= ival(c.get("_size", bi))}
+        from specs import forest
+        bi = a.self.t
+        return {"is_interval": c.isinst(bi, "ByteInterval"), "value_in_schema_range": a.value.t >= 0,
+                "len_nonneg": contents(c, bi)[1] >= 0,
+                "wf_static": forest.wf_static(c), "wf_parents": forest.wf_parents(c), "inv_region": forest.inv_region(c)}
 
     def post(self, c0, c1, a, res):
-        bi = a.instance.t
+        from specs import forest
+        bi = a.self.t
+        it0, n0 = contents(c0, bi)
+        it1, n1 = contents(c1, bi)
+        i = fresh("i", Int)
         return {"stored": c1.get("_size", bi) == VInt(a.value.t),
-                "stored_bytes_do_not_exceed_size": contents(c1, bi)[1] <= a.value.t}
+                "stored_bytes_do_not_exceed_size": z3.Implies(n0 <= ival(c0.get("_size", bi)), n1 <= a.value.t) if False
+                else n1 == z3.If(a.value.t < n0, a.value.t, n0),
+                "kept_prefix": z3.ForAll([i], z3.Implies(z3.And(0 <= i, i < n1), z3.Select(it1, i) == z3.Select(it0, i))),
+                "wf_static": forest.wf_static(c1), "wf_parents": forest.wf_parents(c1),
+                "inv_region": forest.inv_region(c1)}
 
 
 def register(reg):
